@@ -406,6 +406,10 @@ type CaseRun struct {
 	Run  *Run // shared by every scenario of the same (possibly bisected) pack
 	Reqs []Request
 	Solo bool // the scenario ended up alone in its project
+	// Interaction: the scenario is part of a group that fails although every half of it succeeds on its own
+	// (the failure needs several scenarios together); Run is the failing group's run, Group its members.
+	Interaction bool
+	Group       []string
 }
 
 // Failed reports whether the pack produced no servable binary (rejected, not compilable, registration panic).
@@ -442,7 +446,26 @@ func RunCases(scratch string, cases []scen.Case, packSize, parallel int, instrum
 		os.RemoveAll(dir)
 		if r.Failed() && len(cs) > 1 {
 			mid := len(cs) / 2
-			return append(runPack(cs[:mid], tag+"a"), runPack(cs[mid:], tag+"b")...)
+			sub := append(runPack(cs[:mid], tag+"a"), runPack(cs[mid:], tag+"b")...)
+			anyFailed := false
+			for _, s := range sub {
+				if s.Run != nil && s.Run.Failed() {
+					anyFailed = true
+				}
+			}
+			if anyFailed {
+				return sub
+			}
+			// neither half fails alone: the failure is an interaction between scenarios of this group
+			var ids []string
+			for _, c := range cs {
+				ids = append(ids, c.ID)
+			}
+			var out []CaseRun
+			for i, c := range cs {
+				out = append(out, CaseRun{Case: c, Run: r, Reqs: per[i], Interaction: true, Group: ids})
+			}
+			return out
 		}
 		var out []CaseRun
 		for i, c := range cs {
